@@ -158,6 +158,16 @@ def body_geometry(ctx, case):
     want = eng.fast_remap(img, coords)
     ctx.check(crop.shape == want.shape and np.array_equal(crop, want), "crop_fell_back_to_blank",
               lambda: "crop shape %r, map shape %r; " % (crop.shape, coords.shape) + desc())
+    # history on one line: cropping must not depend on (or change) what was cropped before - the layout engine hands over
+    # heights as float64 arrays and baselines as arrays, and the same objects are cropped again by later stages
+    h_arr = np.asarray(case["heights"], dtype=np.float64)
+    b_arr = base.copy()
+    first = np.asarray(eng.get_crop_inputs(b_arr, h_arr, case["line_height"]))
+    second = np.asarray(eng.get_crop_inputs(b_arr, h_arr, case["line_height"]))
+    ctx.check(np.array_equal(h_arr, np.asarray(case["heights"], dtype=np.float64)) and np.array_equal(b_arr, base), "crop_modifies_its_inputs",
+              lambda: "heights now %r baseline now %r; " % (h_arr.tolist(), b_arr.tolist()) + desc())
+    ctx.check(first.shape == second.shape and np.array_equal(first, second) and first.shape == np.asarray(coords).shape and np.array_equal(first, coords),
+              "second_crop_of_the_same_line_differs", lambda: "shapes %r %r %r; " % (first.shape, second.shape, np.asarray(coords).shape) + desc())
     if is_nontrivial(case):
         ctx.nontrivial(repr(case))
 
